@@ -301,6 +301,10 @@ static int h_call (int fn, const char *s, const char *e)
     case '6': return is_ipv6 (s, e);
     case 'P': return is_ipaddr (s, e);
     case 'S': return is_special_domain (s, e);
+    case 'a': case 'b': case 'c': {
+        eav_result_t *r = fn == 'a' ? is_822_email (s, (size_t) (e - s), true) : fn == 'b' ? is_5321_email (s, (size_t) (e - s), true) : is_5322_email (s, (size_t) (e - s), true);
+        int rc = r->rc; eav_result_free (r); return rc;
+    }
     default:  return is_ascii_domain (s, e);
     }
 }
